@@ -4,7 +4,8 @@
    request id -> status, and the transition table of the class documentation. *)
 From Coq Require Import ZArith List Bool.
 From SP Require Import Base.Result Base.Bytes Model.SpacePacket Model.Verificator
-  Spec.SpacePacketSpec Spec.VerificatorSpec Proofs.VerificatorBase Proofs.VerificatorProofs.
+  Spec.SpacePacketSpec Spec.VerificatorSpec Proofs.VerificatorBase Proofs.VerificatorProofs
+  Proofs.VerificatorKept.
 Import ListNotations.
 Open Scope Z_scope.
 
@@ -154,3 +155,33 @@ Example C16_nominal_chain :
    ONone] /\
   vfinal [] [AddTc h; rp 1 None; rp 3 None; rp 5 (Some 1); rp 7 None; RemoveCompleted] = [].
 Proof. exact nominal_chain. Qed.
+
+(* ---- answers kept by the caller, caller-side edits (Model.Verificator.hrun) ---- *)
+
+(* the history layer adds nothing to the tracker: observations and final dictionary are vrun's *)
+Theorem C16_hrun_obs_vrun : forall ops d ks, fst (fst (hrun d ks (map HOp ops))) = vrun d ops.
+Proof. exact hrun_obs_vrun. Qed.
+Print Assumptions C16_hrun_obs_vrun.
+
+Theorem C16_hrun_final_dict : forall ops d ks, snd (fst (hrun d ks (map HOp ops))) = vfinal d ops.
+Proof. exact hrun_final_dict. Qed.
+Print Assumptions C16_hrun_final_dict.
+
+(* the caller editing a telecommand object it registered is invisible to the tracker *)
+Theorem C16_hrun_caller_edit : forall d ks r,
+  fst (fst (hrun d ks (HCallerEdit :: r))) = (ONone, d) :: fst (fst (hrun d (map (refresh d) ks) r)) /\
+  snd (fst (hrun d ks (HCallerEdit :: r))) = snd (fst (hrun d (map (refresh d) ks) r)).
+Proof. exact hrun_caller_edit. Qed.
+Print Assumptions C16_hrun_caller_edit.
+
+(* the completed flag of an answer is never rewritten by a later call *)
+Theorem C16_kept_completed_stable : forall ops d ks,
+  exists n, map k_completed (snd (hrun d ks ops)) = map k_completed ks ++ n.
+Proof. exact kept_completed_stable. Qed.
+Print Assumptions C16_kept_completed_stable.
+
+(* an answer whose status is still the dictionary's object reads the dictionary's current status *)
+Theorem C16_kept_live_reads_dictionary : forall ops d ks, Forall (reads d) ks ->
+  Forall (reads (snd (fst (hrun d ks ops)))) (snd (hrun d ks ops)).
+Proof. exact kept_live_reads_dictionary. Qed.
+Print Assumptions C16_kept_live_reads_dictionary.
